@@ -25,7 +25,8 @@ META = {
         'line, rows, final newline) is included in the reader\'s grid rule, no scalar text is empty or contains a raw '
         'line break, grids are joined by the separator the reader splits on.  (D6) assembly: _gen_grid rebuilds version, '
         'ordered metadata, ordered columns and rows by zipping cells onto column names.  (D7) date-time payloads: the reader converts the written instant into the named zone with astimezone, the writer emits isoformat() of the value itself plus the zone name.  Also: the version reaches every nested writer (version threading, locals resolved), the header carries the grid\'s own version, the document text is not rewritten before parsing, the zone name written is justified for that instant (shared with C17.D3).  Not decided: equality of the '
-        'reconstructed objects (float parsing, tz arithmetic: see C17).'),
+        'reconstructed objects (float parsing, tz arithmetic: see C17).'
+        ' Also (D2): Ref.__init__ sets has_value for every value other than None (decision table incl. the empty display string); the hs_ref action decides presence of the display token by token count.'),
     'rule_text': 'obligations = ladder rows, kinds x (inclusion + pairwise disjointness) x 2 versions, code-point classes, '
                  'exactness per kind, framing/assembly facts',
     'trusted_base': ['pyparsing Or = longest match with list-order ties; the regular abstraction of the reader can miss, '
@@ -60,6 +61,10 @@ def run(ctx):
     from . import c17
     c17._api(ctx, ctx.model, rule='C01.D7', only=('zincparser', 'zincdumper'))
     c17._timezone_name(ctx, ctx.model, rule='C01.D7')
+    # the empty display string of a reference is a display string (Ref.__init__, hs_ref action)
+    from . import _ref
+    _ref.ref_init(ctx, 'C01.D2')
+    _ref.zinc_ref_action(ctx, 'C01.D2')
 
 
 def _exactness(ctx, templates):
